@@ -1886,10 +1886,82 @@ pub fn check_huge_id_space(rep: &Report) {
     });
 }
 
+/// Deterministic pseudo-random byte patterns (all 256 byte values, lengths
+/// 4..=8): thousands of states within a few bytes of the root, i.e. thousands
+/// of dense rows with a 256-class alphabet.
+pub fn random_byte_patterns(n: usize) -> Pats {
+    let mut x: u64 = 0x9E37_79B9_7F4A_7C15;
+    let mut next = move || {
+        x ^= x << 13;
+        x ^= x >> 7;
+        x ^= x << 17;
+        x
+    };
+    let mut seen = std::collections::HashSet::new();
+    let mut v = vec![];
+    while v.len() < n {
+        let len = 4 + (next() % 5) as usize;
+        let p: Vec<u8> = (0..len).map(|_| (next() >> 24) as u8).collect();
+        if seen.insert(p.clone()) {
+            v.push(p);
+        }
+    }
+    v
+}
+
+/// 1 500 / 3 000 random byte patterns, standard semantics, every automaton
+/// kind: iteration and overlapping iteration over a haystack made of whole
+/// patterns, truncated patterns and noise, against the naive SPEC.
+pub fn check_many_dense_rows(rep: &Report) {
+    let mut items = vec![];
+    for n in [1500usize, 3000] {
+        for ak in AKINDS {
+            items.push((n, ak));
+        }
+    }
+    let desc = |i: usize| format!("many dense rows n={} {}", items[i].0, akind_name(items[i].1));
+    par_for_desc(rep, items.len(), &desc, |ix, st| {
+        let (n, ak) = items[ix];
+        let pats = random_byte_patterns(n);
+        let ac = match build_ac(&pats, Kind::Std, false, ak, true) {
+            Ok(a) => a,
+            Err(e) => {
+                rep.violation(Violation { property: rep.property.clone(), what: "build-failed".into(), case: J::obj().set("engine", J::s("acdiff")).set("mode", J::s("huge-match-list")), detail: format!("{} random byte patterns: {}", n, e), tags: vec![] });
+                return;
+            }
+        };
+        let spec = Spec::new(pats.clone(), false);
+        let mut h: Vec<u8> = vec![];
+        for k in [7usize, n - 1, n / 2, 0, n / 3, 1, n - 2] {
+            h.extend_from_slice(&pats[k]);
+            h.extend_from_slice(&pats[(k + 5) % n][..3]);
+            h.push((k % 251) as u8);
+        }
+        let exp_iter = spec.iter(Kind::Std, &h, 0, h.len(), false);
+        let exp_over = spec.overlapping(&h, 0, h.len(), false);
+        let got_iter = catch_unwind(AssertUnwindSafe(|| ac.find_iter(&h).take(h.len() + 2).map(mm).collect::<Vec<M>>()));
+        let got_over = catch_unwind(AssertUnwindSafe(|| ac.find_overlapping_iter(&h).take(8 * h.len()).map(mm).collect::<Vec<M>>()));
+        st.add("many_dense_rows_cases", 1);
+        for (api, got, exp) in [("find_iter", &got_iter, &exp_iter), ("find_overlapping_iter", &got_over, &exp_over)] {
+            if got.as_ref().ok() != Some(exp) {
+                rep.violation(Violation {
+                    property: rep.property.clone(),
+                    what: "many-dense-rows".into(),
+                    case: J::obj().set("engine", J::s("acdiff")).set("mode", J::s("huge-match-list")).set("n", J::i(n as i64)).set("ackind", J::s(akind_name(ak))),
+                    detail: format!("{} pseudo-random byte patterns (len 4..8) {} {} on a {}-byte haystack of patterns, truncated patterns and noise: got {:?}, SPEC {:?}", n, akind_name(ak), api, h.len(), got.as_ref().map_err(|p| crate::aut::panic_msg(p)), exp),
+                    tags: vec![],
+                });
+                return;
+            }
+        }
+    });
+}
+
 /// Replay of "acdiff" cases (C05 prefilter differential, C10 span).
 pub fn replay_acdiff(case: &J) -> i32 {
     if case.str_of("mode") == "huge-match-list" {
         let rep = Report::new("C03", "quick");
+        check_many_dense_rows(&rep);
         check_huge_id_space(&rep);
         check_huge_match_lists(&rep);
         println!("huge match lists re-run: {} violation(s)", rep.nviol());
